@@ -89,6 +89,7 @@ func VP_C08_fields() {
 
 // length-prefixed decoders with every prior destination state.
 func VP_C08_prefixed() {
+	vp.NoSpin(300) // bounded input: no loop of the decoder legitimately runs 300 times
 	n := vp.Choice(vpC08N() + 1)
 	b := vp.Bytes(n)
 	vp.SizeBound(n + 2)
@@ -116,6 +117,7 @@ func VP_C08_prefixed() {
 
 // frame unpacking without compression on arbitrary bytes, fresh and reused receiver.
 func VP_C08_unpack_plain() {
+	vp.NoSpin(300) // bounded input: no loop of the decoder legitimately runs 300 times
 	n := vp.Choice(vpC08N() + 1)
 	b := vp.Bytes(n)
 	vp.SizeBound(n + 2)
@@ -133,6 +135,7 @@ func VP_C08_unpack_plain() {
 // frame unpacking with compression enabled: arbitrary header fields, arbitrary
 // (really compressed, or raw) content, arbitrary threshold.
 func VP_C08_unpack_compressed() {
+	vp.NoSpin(300) // bounded input: no loop of the decoder legitimately runs 300 times
 	t := vp.Int()
 	vp.Assume(t >= 0)
 	vp.SizeBound(12)
@@ -158,6 +161,7 @@ func VP_C08_unpack_compressed() {
 // reflect-driven combinators on arbitrary bytes: Ary with every prefix type
 // into nil / used destinations, and NBT fields.
 func VP_C08_ary() {
+	vp.NoSpin(300) // bounded input: no loop of the decoder legitimately runs 300 times
 	n := vp.Choice(vpC08N() + 1)
 	b := vp.Bytes(n)
 	vp.SizeBound(n + 2)
@@ -183,6 +187,7 @@ func VP_C08_ary() {
 }
 
 func VP_C08_nbtfield() {
+	vp.NoSpin(300) // bounded input: no loop of the decoder legitimately runs 300 times
 	n := vp.Choice(vpC08N() + 1)
 	b := vp.Bytes(n)
 	vp.SizeBound(n + 2)
@@ -245,6 +250,7 @@ func VP_C08_ary_long() {
 // follows): an error, never a panic and never a success. Lengths at the
 // thresholds an implementation might treat specially (64 KiB, 1 MiB, 4 Mi).
 func VP_C08_big_declared() {
+	vp.NoSpin(300) // bounded input: no loop of the decoder legitimately runs 300 times
 	decl := []int32{32767, 32768, 65535, 65536, 65537, 1 << 20, 1<<22 - 1}[vp.Choice(7)]
 	tail := vp.Bytes(vp.Choice(4))
 	vp.SizeBound(8) // symbolic lengths only; the concrete declared sizes are limited by the allocation bound
